@@ -487,7 +487,7 @@ example : NoZero wEx ∧ WeightsAre wEx [⟨⟨0, 1⟩, ⟨0, 1⟩, 0, 0⟩, Vot
     VotesIn wEx [⟨⟨0, 1⟩, ⟨0, 1⟩, 0, 0⟩, Vote.zero] := by
   have h0 : WF wEx0 := wf_new 7 1 0 0 0 .absent
   have hz : NoZero wEx := noZero_grow wEx0 wEx (show aGet wEx0.indices NodeRef.zero = none by decide)
-    wEx_grow h0 wEx_wf (by intro r hr; omega)
+    wEx_grow h0 wEx_wf (by intro r hr h0; subst h0; rcases hr with hr | hr <;> cases hr)
   refine ⟨hz, weights_grow wEx0 wEx h0 wEx_wf wEx_grow hz _ _ ?_ (weightsAre_of_lt _ _ _ (by decide))⟩
   intro v hv
   simp at hv
